@@ -154,6 +154,30 @@ def distObs (rounded : Bool) (p q : Int × Int) : Nat × Bool :=
   let n := sqDist p q
   if rounded then (roundSqrt n, true) else (Nat.sqrt n, Nat.sqrt n * Nat.sqrt n == n)
 
+/-! ### bit-exact view of the matrix (executed by the correspondence only, not reasoned about):
+the IEEE-754 double nearest to `√n` — what a correctly rounded `f64::sqrt` returns for an exactly representable `n` -/
+
+/-- smallest `e` with `⌊√(n·4^e)⌋ ≥ 2^52` (53 significant bits) -/
+def sqrtScale (n : Nat) : Nat → Nat → Nat
+  | 0, e => e
+  | fuel + 1, e => if Nat.sqrt (n * 4 ^ e) ≥ 2 ^ 52 then e else sqrtScale n fuel (e + 1)
+
+/-- bit pattern of the double nearest to `√n` (for `1 ≤ n < 2^104`; `0 ↦ +0.0`); never a tie: `√n` is an integer or irrational -/
+def sqrtBits (n : Nat) : Nat :=
+  if n = 0 then 0 else
+  let e := sqrtScale n 64 0
+  let m := Nat.sqrt (n * 4 ^ e)
+  let mant := if (2 * m + 1) ^ 2 < 4 * (n * 4 ^ e) then m + 1 else m
+  (52 + 1023 - e) * 2 ^ 52 + (mant - 2 ^ 52)
+
+/-- bit pattern of the matrix entry: rounded mode stores the integer `roundSqrt n` (as a double: `√(r²)`) -/
+def distBits (rounded : Bool) (p q : Int × Int) : Nat :=
+  let n := sqDist p q
+  if rounded then sqrtBits (roundSqrt n * roundSqrt n) else sqrtBits n
+
+def bitsMatrix (rounded : Bool) (pts : List (Option (Int × Int))) : List (List Nat) :=
+  pts.map (fun p => pts.map (fun q => match p, q with | some a, some b => distBits rounded a b | _, _ => 0))
+
 /-! ## `create_fleet_with_distance_costs` -/
 
 def mkVehicle (cap : Int) (loc : Nat) (lo : Int) (hi : Bound) (i : Nat) : Vehicle' :=
